@@ -14,3 +14,11 @@ package externaltoc
 //@   assume after "cf := layerConvertFunc(c)" : cf != nil
 // the TOC recorded for this call's layer comes from a compressor created by this very call (never shared between layers)
 //@   assert[C19] before "dgst, size, err := writeTOCTo(ctx, c, cs)" : fresh(c)
+
+// finalize: the TOC image lists one layer per recorded TOC -- every converted layer's TOC, whatever image, platform
+// or order it came from (each iteration over the recorded TOCs appends exactly one descriptor, carrying that TOC's
+// digest and size)
+//@ func layerConvert$2
+//@   props C19
+//@   requires esgzDigest2TOC != nil
+//@   loop 0 step[C19] len(layers) == prev(len(layers)) + 1 && layers[len(layers)-1].Digest == toc.digest && layers[len(layers)-1].Size == toc.size
